@@ -17,6 +17,8 @@ type Case struct {
 	Entry   string   `json:"entry"`   // "path": kit.NewJapi(root path); "mem": kit.NewJApiFromFile(root bytes), INCLUDEs from disk
 	Faults  []Fault  `json:"faults,omitempty"`
 	Expect  *Expect  `json:"expect,omitempty"` // fault-located expectation (C07c)
+	Banned  []string `json:"banned,omitempty"`  // directive keywords passed to core.WithBannedDirectives for this build
+	RootAs  int      `json:"root_as,omitempty"` // spelling of the root path: 0 a/p/root.jst, 1 ./a/p/.., 2 a/p/./.., 3 a//p/.., 4 a/q/../p/.., 5 absolute, 6 ../<cwd name>/a/p/..
 	Prior   int      `json:"prior,omitempty"`  // sim-disk engines: this many damaged older versions of the same project are built first, at the same paths, in the same process and pool session
 
 	History []Step    `json:"history,omitempty"` // C16: accessor calls with environment changes
@@ -148,6 +150,7 @@ type TaskOp struct {
 	Kind   string `json:"kind"`             // "build" (own instance of project Proj) | "call" (accessor Op)
 	Proj   int    `json:"proj"`             // index into Projects
 	Shared bool   `json:"shared,omitempty"` // call goes to the shared catalog of project Proj
+	Banned []string `json:"banned,omitempty"` // build: directive keywords passed to core.WithBannedDirectives
 	Op     string `json:"op,omitempty"`
 }
 
